@@ -165,6 +165,20 @@ func paramNames(fn *ssa.Function) []string {
 	for _, p := range fn.Params {
 		out = append(out, p.Name())
 	}
+	if len(out) == 0 && fn.Signature != nil {
+		// functions without a body in the program (dependencies): names from the signature
+		if r := fn.Signature.Recv(); r != nil {
+			out = append(out, r.Name())
+		}
+		ps := fn.Signature.Params()
+		for i := 0; i < ps.Len(); i++ {
+			n := ps.At(i).Name()
+			if n == "" || n == "_" {
+				n = fmt.Sprintf("arg%d", i)
+			}
+			out = append(out, n)
+		}
+	}
 	return out
 }
 
@@ -172,6 +186,8 @@ func (ex *Exec) pointAsserts(fr *Frame, st *State, callee string, ord int, fname
 	if !fr.top || fr.contract == nil {
 		return
 	}
+	ex.paramsCurrent = true
+	defer func() { ex.paramsCurrent = false }()
 	defer func() {
 		for j, ps := range fr.contract.PointSets {
 			if ps.Callee != callee || (ps.Ord > 0 && ps.Ord != ord) {
@@ -370,6 +386,7 @@ func (ex *Exec) applyContract(fr *Frame, st *State, c *FuncContract, pnames []st
 		if err != nil {
 			// a postcondition that talks about the callee's locals (checked where the callee is verified) says
 			// nothing to a caller
+			ex.warn("postcondition of %s not usable at this call site: %v", c.Key, err)
 			continue
 		}
 		ex.assume(st.pc, g)
